@@ -120,6 +120,14 @@ def corpus():
         ('peer', [rq]), ('peer', [ac, rc.enc_abort(0, 0)]), ('fin',)])
     c['R7_unexpected_then_abort'] = dict(role='requestor', steps=[
         ('user', 'associate'), ('peer', [rel_rq, rc.enc_abort(2, 0)]), ('fin',)])
+    # a PDU that cannot be acted upon as what it claims to be (unknown type; known type without
+    # room for its fixed fields), cut anywhere, and further PDUs behind it - in the same turn
+    # and in the next one: each is framed by ITS OWN length field
+    c['A19_unknown_then_abort'] = dict(role='acceptor', steps=[
+        ('peer', [rq]), ('peer', [rc.enc_pdu(0x5A, b'j' * 40), rc.enc_abort(2, 0)]), ('fin',)])
+    c['A20_undecodable_then_more'] = dict(role='acceptor', steps=[
+        ('peer', [rq]), ('peer', [rc.enc_pdu(0x04, b'\0\0\0\x10\x01' + b'k' * 30)]),
+        ('peer', [rq]), ('peer', [rc.enc_abort(0, 0)]), ('fin',)])
     # one turn of exactly as many bytes as the provider asks the socket for in one recv()
     # (its configured maximum PDU length), then the peer waits for the answers
     two = [echo_rq(1), echo_rq(2)]
